@@ -89,8 +89,47 @@ class C05Stop(Monitor):
             return True
         return None  # precision: decided by the wrapper (C16); minimize(): evals on requests, checked through nit / nfev
 
+    def _ref_precision(self, verdict):
+        """SingularProblemPrecisionReached, recomputed from the recorder: true iff some value that went through the precision wrapper of
+        the root level's problem lies within the precision of the optimum (abs(value - optimum) <= precision, nothing relative)."""
+        from ..objectives import g_min
+
+        ctx = self.ctx
+        desc = ctx.desc
+        st = desc["levels"][0]["stack"]
+        prec = float(next(s_ for s_ in st if s_.startswith("prec:")).split(":")[1])
+        opt = ctx.sign * g_min(desc["obj"], desc["box"]["bounds"])
+        tag = -1 if desc.get("shared") else 0
+        log = ctx.log
+        start = getattr(self, "_prec_scanned", 0)
+        hit = getattr(self, "_prec_hit", False)
+        closest = getattr(self, "_prec_closest", float("inf"))
+        for t_, _x, y in log[start:]:
+            if t_ == tag:
+                gap = abs(y - opt)
+                if gap < closest:
+                    closest = gap
+                if gap <= prec:
+                    hit = True
+        self._prec_scanned, self._prec_hit, self._prec_closest = len(log), hit, closest
+        self.cov("precision_gsc_verdicts_compared_with_the_recorder")
+        if opt != 0 and prec < 1e-9 * abs(opt):
+            self.cov("precision_gsc_with_precision_far_below_the_optimum_s_magnitude")
+        if verdict and not hit:
+            self.v(
+                "precision stop condition true although no evaluated value lies within the precision of the optimum",
+                optimum=float(opt), precision=prec, closest_gap=float(closest),
+            )
+        if hit and not verdict and not any(s_.startswith("cutoff") for s_ in st):
+            self.v("precision stop condition false although an evaluated value lies within the precision of the optimum", optimum=float(opt), precision=prec, closest_gap=float(closest))
+
     def on_gsc(self, tree, verdict, kind, deme):
         ctx = self.ctx
+        if ctx.desc.get("kind") != "minimize" and ctx.desc.get("gsc", {}).get("k") == "precision":
+            self._ref_precision(bool(verdict))
+        g_ = ctx.desc.get("gsc", {})
+        if g_.get("k") == "fevals" and g_.get("w") == "root" and g_.get("w_spelling") == "str" and len(self.all_demes(tree)) > 1:
+            self.cov("fevals_root_weighting_given_as_plain_string_consulted_with_child_demes")
         if ctx.desc.get("kind") != "minimize":
             try:
                 want = self._ref_gsc(tree)
